@@ -72,6 +72,20 @@ CLAIMED["C08"] = dict(
     note="Payload contents are carried by the stdlib base64 codec (not repository code) and are concrete fillers; sizes are small with symbolic "
          "order relations standing for the 1024/2048 boundaries; one recorded finding (server-side threshold destroys long fragmented messages).",
     ref="DESIGN.md section 6 C08", technique=XH)
+CLAIMED["C15"] = dict(
+    text="Bounded symbolic model checking of the real client mirror: pre-state built by real def* messages over a universe of 3x3x3 names "
+         "(one of each unknown) in two layouts holding all five vector kinds, then one symbolic message of every def*/set*/delProperty/other "
+         "kind (names, state, values symbolic; BLOB payload absent/empty/present); nothing may raise and the public view must equal an independent "
+         "reference interpreter's.",
+    note="Trusted: names via symbolic index into a concrete universe; parsing/fragmentation are premises (C02/C03); invalid base64 and wrong sizes outside.",
+    ref="DESIGN.md section 6 C15", technique=XH)
+CLAIMED["C16"] = dict(
+    text="Bounded symbolic model checking of the real client event machinery: every event raised for one symbolic message is compared with the "
+         "changes between consecutive snapshots of the reference mirror (old/new values), a callback with a fully symbolic filter must see exactly "
+         "the reference predicate's selection, removal by id/criteria at a symbolic point silences it, a raising callback starves nobody. "
+         "One recorded finding (definition-time events), whose class is carved out and re-checked leniently.",
+    note="Trusted: as C15. Coroutine callbacks and the order of events inside one message are outside.",
+    ref="DESIGN.md section 6 C16", technique=XH)
 NA_DEFAULT = "check not built yet in this round (no verdict claimed); see DESIGN.md section 6 for the plan"
 
 checks, na = [], []
